@@ -387,9 +387,9 @@ func (c *Ctx) Locks() *LockInfo {
 					continue
 				}
 				if isDefer(e.Site) {
-					// runs at function exit: locks released by deferred unlocks registered later are unknown; use {}
-					// unless the defer is the lock's own unlock. Conservative: empty.
-					contribute(LockSet{})
+					// runs at function exit, before every defer registered earlier: a lock held at the registration and
+					// released only by a deferred unlock that was registered before this defer is still held then.
+					contribute(li.deferExecSet(e.Caller.Func, e.Site))
 					continue
 				}
 				h, ok := li.held[e.Caller.Func][e.Site]
@@ -508,3 +508,37 @@ func (li *LockInfo) HeldAt(ins ssa.Instruction) LockSet {
 }
 
 func (li *LockInfo) Entry(fn *ssa.Function) LockSet { return li.entry[fn] }
+
+// deferExecSet: the locks certainly held when the call deferred at site d runs. Deferred calls run last-registered first,
+// so a lock L is still held iff it is held where d is registered, some `defer L.Unlock()` dominates d (registered earlier,
+// hence runs later), and no plain (non-deferred) release of L exists in the function at all (keeps the argument local and
+// simple; functions mixing both forms get the conservative answer).
+func (li *LockInfo) deferExecSet(fn *ssa.Function, d ssa.Instruction) LockSet {
+	at, ok := li.held[fn][d]
+	if !ok || at == nil {
+		return LockSet{}
+	}
+	res := LockSet{}
+	for id, mode := range at {
+		earlier := false
+		plain := false
+		for _, b := range fn.Blocks {
+			for _, ins := range b.Instrs {
+				switch x := ins.(type) {
+				case *ssa.Defer:
+					if op, isOp := lockOpOfCommon(x.Common()); isOp && !op.Acquire && op.ID == id && Dominates(ins, d) {
+						earlier = true
+					}
+				case *ssa.Call:
+					if op, isOp := lockOpOfCommon(x.Common()); isOp && !op.Acquire && op.ID == id {
+						plain = true
+					}
+				}
+			}
+		}
+		if earlier && !plain {
+			res[id] = mode
+		}
+	}
+	return res
+}
